@@ -8,7 +8,8 @@
   * `Rx.paths`  : number of backtracking paths (`(runs env s r i []).length`).
   * `Rx.work`   : number of sub-match attempts made by an exhaustive backtracking search.
   * `Rx.Det`    : the strong check: the end positions of `r` from any start are pairwise distinct.
-  * `Rx.StarSafe` : every `rep` sub-term (also inside look-arounds) is `Det`.
+  * `Rx.StarSafe` : every unbounded `rep` sub-term (also inside look-arounds) is `Det`; a bounded
+                  one is `Det` or has a `StarSafe` body.
   * `Rx.pcoef/pdeg`, `Rx.wcoef/wdeg` : the constants of the polynomial bounds.
 
   No Mathlib.
@@ -309,27 +310,43 @@ end
     Rules: (1) disjoint first-sets; (2) guard `x | (?!x) …`; (3) maximal munch
     `C{a,b}(?!C) | C{m,…}` with `b < m`; (4) `(?<=^) | (?<=w)` with `w` of positive width;
     (5) split a leading optional of `x`; (6) strip a common leading leaf. -/
+def exclGuard (x y : Rx) : Bool :=
+  match y with
+  | .seq (.look true true x' :: _) => beq x' x
+  | _ => false
+
+def exclMunch (x y : Rx) : Bool :=
+  match x, y with
+  | .seq [.rep _ (some b) _ c, .look true true c'], .rep m _ _ c'' =>
+    isLeaf c && beq c' c && beq c'' c && b < m
+  | _, _ => false
+
+def exclBehind (x y : Rx) : Bool :=
+  match x, y with
+  | .look false false .bos, .look false false r =>
+    (match width r with | some w => 0 < w | none => false)
+  | _, _ => false
+
+def optSplit (x : Rx) : Option (Rx × Rx) :=
+  match x with
+  | .seq (.rep 0 (some 1) _ a :: as) => some (.seq (a :: as), .seq as)
+  | _ => none
+
+def leafStrip (x y : Rx) : Option (Rx × Rx) :=
+  match x, y with
+  | .seq (a :: as), .seq (b :: bs) => if isLeaf a && beq b a then some (.seq as, .seq bs) else none
+  | _, _ => none
+
 def excl : Nat → Rx → Rx → Bool
   | 0, _, _ => false
   | fuel + 1, x, y =>
-    CSet.disjoint (first x) (first y) ||
-    (match y with
-      | .seq (.look true true x' :: _) => beq x' x
-      | _ => false) ||
-    (match x, y with
-      | .seq [.rep _ (some b) _ c, .look true true c'], .rep m _ _ c'' =>
-        isLeaf c && beq c' c && beq c'' c && b < m
-      | _, _ => false) ||
-    (match x, y with
-      | .look false false .bos, .look false false r =>
-        (match width r with | some w => 0 < w | none => false)
-      | _, _ => false) ||
-    (match x with
-      | .seq (.rep 0 (some 1) _ a :: as) => excl fuel (.seq (a :: as)) y && excl fuel (.seq as) y
-      | _ => false) ||
-    (match x, y with
-      | .seq (a :: as), .seq (b :: bs) => isLeaf a && beq b a && excl fuel (.seq as) (.seq bs)
-      | _, _ => false)
+    CSet.disjoint (first x) (first y) || exclGuard x y || exclMunch x y || exclBehind x y ||
+    (match optSplit x with
+      | some (x1, x2) => excl fuel x1 y && excl fuel x2 y
+      | none => false) ||
+    (match leafStrip x y with
+      | some (x', y') => excl fuel x' y'
+      | none => false)
 
 def exclFuel : Nat := 6
 
